@@ -150,6 +150,14 @@ func (vc *VC) buildQuery(o *Obl) (string, error) {
 				if _, ok := vc.decl[alA0]; ok {
 					fmt.Fprintf(&sb, "(assert (forall ((r Int)) (! (and (or (= (sl.arr (select %s r)) 0) (select %s (sl.arr (select %s r)))) (>= (sl.arr (select %s r)) 0) (<= 0 (sl.off (select %s r))) (<= 0 (sl.len (select %s r))) (<= (sl.len (select %s r)) (sl.cap (select %s r))) (=> (= (sl.arr (select %s r)) 0) (and (= (sl.len (select %s r)) 0) (= (sl.cap (select %s r)) 0)))) :pattern ((select %s r)))))\n", n, alA0, n, n, n, n, n, n, n, n, n, n)
 				}
+			case strings.HasPrefix(key, "MV:"):
+				// map values that are slices: their arrays were allocated at entry, too
+				ks, inner, ok2 := vs.ArrParts()
+				if ok2 && inner == SSlice {
+					if _, ok := vc.decl[alA0]; ok {
+						fmt.Fprintf(&sb, "(assert (forall ((m Int) (k %s)) (! (and (or (= (sl.arr (select (select %s m) k)) 0) (select %s (sl.arr (select (select %s m) k)))) (>= (sl.arr (select (select %s m) k)) 0) (<= 0 (sl.off (select (select %s m) k))) (<= 0 (sl.len (select (select %s m) k))) (<= (sl.len (select (select %s m) k)) (sl.cap (select (select %s m) k)))) :pattern ((select (select %s m) k)))))\n", ks, n, alA0, n, n, n, n, n, n, n)
+					}
+				}
 			case strings.HasPrefix(key, "F:") && vs == SInt && isPtrLike(gt):
 				if _, ok := vc.decl[al0]; ok {
 					fmt.Fprintf(&sb, "(assert (forall ((r Int)) (! (or (= (select %s r) 0) (select %s (select %s r))) :pattern ((select %s r)))))\n", n, al0, n, n)
